@@ -140,6 +140,14 @@ class Repo:
             fi = self._mkfunc(m, None, st, f"{short}.{st.name}", "function")
             m.functions[st.name] = fi
             m.names[st.name] = ("func", fi.qualname)
+            # functions / classes defined inside a function body (closures, locally built metaclasses)
+            for inner in ast.walk(st):
+                if inner is st:
+                    continue
+                if isinstance(inner, ast.FunctionDef) and self._parent_is(st, inner, ast.FunctionDef):
+                    self._mkfunc(m, None, inner, f"{short}.{st.name}.<locals>.{inner.name}", "function")
+                elif isinstance(inner, ast.ClassDef):
+                    self._scan_class(m, inner, nested_in=f"{short}.{st.name}")
         elif isinstance(st, ast.ClassDef):
             self._scan_class(m, st)
         elif isinstance(st, (ast.Assign, ast.AnnAssign)):
@@ -159,12 +167,19 @@ class Repo:
             for s in st.body:
                 self._scan_stmt(m, short, s)
 
+    def _parent_is(self, root, node, kind):
+        """node is directly in the body of an if/def of `root` (not a method of a nested class)"""
+        for par in ast.walk(root):
+            if isinstance(par, ast.ClassDef) and node in par.body:
+                return False
+        return True
+
     def _mkfunc(self, m, cls, node, qualname, kind):
         fi = FuncInfo(qualname, m.name, cls, node, kind, m.file, _hash_func(node), node.lineno)
         self.functions[qualname] = fi
         return fi
 
-    def _scan_class(self, m, node: ast.ClassDef):
+    def _scan_class(self, m, node: ast.ClassDef, nested_in=None):
         bases = []
         for b in node.bases:
             if isinstance(b, ast.Name):
@@ -196,8 +211,10 @@ class Repo:
                     for t in tgts:
                         if isinstance(t, ast.Name):
                             ci.class_attrs[t.id] = st.value
-        m.classes[node.name] = ci
-        m.names[node.name] = ("class", node.name)
+        if nested_in is None:
+            m.classes[node.name] = ci
+            m.names[node.name] = ("class", node.name)
+        ci.nested_in = nested_in
         self.classes[node.name] = ci
 
     # ------------------------------------------------------------------
